@@ -55,7 +55,8 @@ def gen_design(rng, size=None, hazards=()):
 
         def pname():
             return _fresh(rng, pused, lambda: _word(rng, "ABCDIOQS", ID_CHARS, 0, 2))
-        ins = [[pname(), rng.choice([1, 1, 1, 2, 3])] for _ in range(rng.randint(0, 3))]
+        ins = [[pname(), rng.choice([1, 1, 1, 2, 3]) if rng.random() > 0.06 else rng.randint(11, 13)]
+               for _ in range(rng.randint(0, 3))]
         outs = [[pname(), rng.choice([1, 1, 1, 2])] for _ in range(rng.randint(0 if ins else 1, 2))]
         bb = {"name": ident(), "ins": ins, "outs": outs, "declared": rng.random() < 0.6}
         if rng.random() < 0.1 and ins:
@@ -164,7 +165,15 @@ def gen_design(rng, size=None, hazards=()):
             s = info({"k": "gate" if rng.random() < 0.15 else "subckt", "model": bb["name"], "conns": conns})
         elif r < 0.8:
             k = rng.choice([0, 1, 1, 2, 2, 3, 4])
-            nets = [src() for _ in range(k)] + [drv()]
+            if rng.random() < 0.12:
+                # two-digit input ports in_10.. : their order is numeric, not lexicographic
+                k = rng.randint(11, 14)
+                while len(bits) < k + 3:
+                    new_net(rng.choice([1, 2, 3]))
+                picks = rng.sample(bits, k) if rng.random() < 0.7 else [rng.choice(bits) for _ in range(k)]
+                nets = [(ref(b) if rng.random() > 0.05 else None) for b in picks] + [drv()]
+            else:
+                nets = [src() for _ in range(k)] + [drv()]
             covers = []
             for _ in range(rng.choice([0, 1, 1, 2, 3])):
                 if k == 0:
